@@ -398,6 +398,20 @@ def run_impl(case):
                                                     np.array(case["v"], dtype=np.float32), np.array(tt_), nhead - 1,
                                                     nhead + len(case["v"]) + (0 if name == "off" else 1) + len(tt_))
             n = min(case["strip_n"], len(case["v"]))
+            if n >= 3:
+                # strips files (also with several strips, short strips, a truncated one) go through the model reader as well
+                # (TriaMesh itself cannot hold fewer than 3 triangles -- C20 -- so only strips with >= 3 triangles in total)
+                stx = []
+                if n >= 5:
+                    stx.append(print_vtk_strips(case["v"], [list(range(n))]))
+                if len(case["v"]) >= 6:
+                    stx.append(print_vtk_strips(case["v"], [list(range(4)), list(range(len(case["v"]) - 1, len(case["v"]) - 5, -1))]))
+                stx.append("".join(print_vtk_strips(case["v"], [list(range(n))]).splitlines(keepends=True)[:-1]))
+                for sx in stx:
+                    fxs = os.path.join(d, "rs.vtk")
+                    open(fxs, "w").write(sx)
+                    rr, _e = _try(lambda: TriaMesh.read_vtk(fxs))
+                    out["files"].append(["vtk_tria", sx, None if rr is None else [np.asarray(rr.v, dtype=float).tolist(), np.asarray(rr.t).tolist()]])
             if n >= 5:
                 # a strip of n >= 5 vertices denotes >= 3 triangles, the smallest mesh TriaMesh can hold
                 f4 = os.path.join(d, "strip.vtk")
